@@ -63,7 +63,8 @@ func runNameCase(c *nameCase) (kind, detail string) {
 	data := gen.Make(c.Shape, c.Size, c.Seed)
 	cfgV := kz.Cfg{Transform: c.T, Entropy: c.E, BlockSize: 65536, Jobs: 2, Checksum: 32, Headerless: c.Headless}
 	cfgC := cfgV
-	cfgC.Transform, cfgC.Entropy = strings.ToUpper(c.T), strings.ToUpper(c.E)
+	// the canonical spelling: upper case, NONE fillers removed from the chain
+	cfgC.Transform, cfgC.Entropy = canonicalChain(c.T), strings.ToUpper(c.E)
 	sv, st, err := kz.Compress(data, cfgV, nil)
 	if err != nil {
 		if st == kz.StageNew {
@@ -126,6 +127,9 @@ func c15(run *core.Run, replay string) {
 				run.Violate("C15 gettype-rejects-spelling kind=transform", fmt.Sprintf("GetType(%q): %v", sp, err), map[string]string{"name": sp})
 				continue
 			}
+			if tc, _ := transform.GetType(canon); tc != ty {
+				run.Violate("C15 type-differs-from-canonical kind=transform", fmt.Sprintf("GetType(%q) = %#x but GetType(%q) = %#x", sp, ty, canon, tc), map[string]string{"name": sp})
+			}
 			back, err := transform.GetName(ty)
 			if err != nil || back != canon {
 				run.Violate("C15 name-type-name kind=transform", fmt.Sprintf("GetName(GetType(%q)) = %q (%v), want %q", sp, back, err, canon), map[string]string{"name": sp})
@@ -184,7 +188,11 @@ func c15(run *core.Run, replay string) {
 		return []string{"text", "skewed"}
 	}
 	addAll := func(t, e string, size int) {
-		for _, ts := range spellings(t) {
+		tss := spellings(t)
+		if strings.Contains(t, "NONE+") || strings.Contains(t, "+NONE") {
+			tss = append(tss, t) // upper case but with fillers: still not the canonical spelling
+		}
+		for _, ts := range tss {
 			for ei, es := range spellings(e) {
 				for si, sh := range dataFor(strings.ToUpper(t)) {
 					if !run.Thorough() && (ei+si)%2 == 1 && !(strings.Contains(t, "ROLZX") || strings.Contains(e, "TPAQX")) {
@@ -236,7 +244,7 @@ func c15(run *core.Run, replay string) {
 			run.Count("canonical_failed_skipped", 1)
 			return
 		}
-		if c.T != strings.ToUpper(c.T) || c.E != strings.ToUpper(c.E) {
+		if c.T != canonicalChain(c.T) || c.E != strings.ToUpper(c.E) {
 			run.Nontrivial(fmt.Sprintf("%s|%s|%s|%d|%v", c.T, c.E, c.Shape, c.Size, c.Headless))
 		}
 		run.Seen("codec_spellings", c.T+"/"+c.E)
